@@ -1,0 +1,7 @@
+//go:build !verif
+
+package godi
+
+// verifYield marks an instrumentation point of the build tag "verif"; without the tag it
+// does nothing.
+func verifYield(string) {}
